@@ -239,3 +239,21 @@ def _copy(self, interp, args, kwargs, node):
 
 Lib.f_np__empty = _empty
 Lib.f_np__copy = _copy
+
+
+VALS = z3.Function("MVALS", M, M)          # matrix of central values of a matrix of observables
+
+
+def install_calc(lib_calc_mod):
+    old = lib_calc_mod.call_opaque
+
+    def call_opaque(self, interp, fn, args, kwargs, node):
+        if fn.tag == "vectorized" and args and _is(args[0]):
+            # np.vectorize(lambda x: x.value)(matrix of observables): the matrix of central values
+            probe = SObj("Obs", {"_value": SReal(z3.Real(fresh("probe.value")))})
+            r = interp.call(fn.payload, [probe], {}, node)
+            if r is probe.attrs["_value"]:
+                return AMat(VALS(args[0].t), args[0].n)
+            interp.err(node, "np.vectorize of an unknown function over an abstract matrix")
+        return old(self, interp, fn, args, kwargs, node)
+    lib_calc_mod.call_opaque = call_opaque
